@@ -108,8 +108,13 @@ def build(a_state, b_set, factor, timing, mtype, second, two_markets):
         hist = prefix
     # the removal arrives as the event of the last prefix tick
     last = hist[-1]
-    hist[-1] = [last[0], ["RM", 1, factor], last[2]]
-    hist += [L.tick(dt), L.tick(dt, ["MD"]), L.tick(dt)]
+    if timing == "suspended":
+        # the non-runner is declared in one SUSPENDED book with a new version (as the exchange does)
+        hist[-1] = [last[0], ["M", [["SUS"], ["RM", 1, factor]]], last[2]]
+        hist += [L.tick(dt), L.tick(dt, ["OPN"]), L.tick(dt, ["MD"]), L.tick(dt)]
+    else:
+        hist[-1] = [last[0], ["RM", 1, factor], last[2]]
+        hist += [L.tick(dt), L.tick(dt, ["MD"]), L.tick(dt)]
     if second:
         hist.append(L.tick(dt, ["RM", 3, second]))
         hist.append(L.tick(dt))
@@ -133,7 +138,10 @@ def _one(args):
         # the same market shape again under another id (same selection ids, same removal): sequentially
         # (two == "seq") or event-grouped ("event")
         t2 = [[t[0], t[1]] for t in ticks]
-        markets.append((simx.MarketSpec(market_id="1.100000002", market_type=mtype, sels=SELS, book0=BOOK0, ew=ew, nwin=nwin, t0=simx.T0 + (50 if two == "event" else 3600_000)), t2))
+        if two == "event-long":
+            # the second market outlives the first: further updates arrive after its sibling closed
+            t2 = t2[:-1] + [[200, ["Q"]], [200, ["MD"]], [200, ["Q"]]] + t2[-1:]
+        markets.append((simx.MarketSpec(market_id="1.100000002", market_type=mtype, sels=SELS, book0=BOOK0, ew=ew, nwin=nwin, t0=simx.T0 + (50 if two.startswith("event") else 3600_000)), t2))
         s0 = dict(scripts[0])
         s0.update({(1, k[1]): v for k, v in scripts[0].items()})
         s1 = dict(scripts[1])
@@ -143,7 +151,7 @@ def _one(args):
         strategies.append(dict(script=scripts[k], kw=dict(skw), name="S%d" % k))
     h = Hooks([1])
     L._install_created_tracking()
-    w = simx.SimWorld(markets, strategies, hooks=h, event_processing=(two == "event")).run()
+    w = simx.SimWorld(markets, strategies, hooks=h, event_processing=bool(two and two.startswith("event"))).run()
     out = []
     counts = {"clause:C09.a": 0, "clause:C09.b": 0, "clause:C09.c": 0, "voided_orders": 0, "voided_with_matched": 0, "reduced_fragments": 0, "scaled_liabilities": 0, "second_market_removals": 0, "second_removals": 0, "inflight_at_removal": 0}
     case = dict(args=list(args))
@@ -261,7 +269,7 @@ def run(tier):
     for a in A_STATES:
         for b in B_SETS:
             for f in FACTORS:
-                for timing in ("plain", "before-ip", "after-ip"):
+                for timing in ("plain", "before-ip", "after-ip", "suspended"):
                     if timing == "after-ip" and a in ("pending", "cancelling", "cancelling-part", "updating", "replacing"):
                         continue
                     mts = MTYPES if (thorough or b in ("moc-lay", "moc-lay+matched")) else ("WIN",)
@@ -274,7 +282,7 @@ def run(tier):
                 for mt in ("WIN", "PLACE"):
                     jobs.append((a, b, f, "plain", mt, 10.0, None))
                     jobs.append((a, b, f, "plain", mt, f, None))
-                    for two in ("seq", "event"):
+                    for two in ("seq", "event", "event-long"):
                         jobs.append((a, b, f, "plain", mt, None, two))
     for r in core.pmap(_one, jobs):
         rep.add_violations(r["violations"])
